@@ -535,7 +535,9 @@ pub fn gen_case(seed: u64, shard: u64, run: u64, t: &Tier) -> Option<Case> {
         }
     }
     let mut goal = goal?;
-    let step = match w.below(4) {
+    let step = match if w.chance(0.05) { 9 } else { w.below(4) } {
+        // very fine steps (a tenth of a degree and less)
+        9 => w.range_f64(0.0008, 0.004),
         0 => w.range_f64(0.5, 2.0f64).to_radians(),
         1 | 2 => w.range_f64(2.0, 8.0f64).to_radians(),
         _ => w.range_f64(8.0, 20.0f64).to_radians(),
@@ -561,6 +563,20 @@ pub fn gen_case(seed: u64, shard: u64, run: u64, t: &Tier) -> Option<Case> {
     }
     if w.chance(0.03) {
         goal = start;
+    }
+    if step < 0.005 {
+        // keep the move short (tens of steps), otherwise a plan needs thousands of nodes
+        for _ in 0..10 {
+            let mut q = start;
+            for j in 0..6 {
+                q[j] += w.range_f64(-1.0, 1.0) * step * w.range_f64(2.0, 12.0);
+            }
+            clampq(&mut q);
+            if free(&q) {
+                goal = q;
+                break;
+            }
+        }
     }
     let max_try = match w.below(6) {
         0 => w.below(3),
